@@ -144,6 +144,9 @@ def builtins():
             return ListV(v.items)
         if isinstance(v, ObjV) and '__list__' in v.fields:
             return v.fields['__list__'].fn(p, [v], {})
+        if isinstance(v, (IterV, SeqV)):
+            # list(iterable): the same elements in the same order (symbolic length)
+            return SeqV(v.at, v.length, 'list(%s)' % v.name)
         raise Unsupported('list of %r' % (v,))
     return {'isinstance': FuncV('isinstance', _isinstance), 'len': FuncV('len', _len), 'next': FuncV('next', _next),
             'tuple': FuncV('tuple', _tuple), 'list': FuncV('list', _list),
